@@ -65,6 +65,34 @@ def mutated(spec, op, warm):
         return 'EXC', type(e).__name__
 
 
+def after_abort(spec):
+    """the molecule's values after a transaction that changed it, looked at the changed state and was rejected"""
+    from vf import molgen
+    a = molgen.build(spec)
+    try:
+        ak = a.copy()
+        ak.kekule()
+        n = next(iter(ak))
+        bl = [(x, y) for x, y, b in ak.bonds()]
+        try:
+            with ak:
+                ak.atom(n).charge = 1 if ak.atom(n).charge != 1 else 0
+                if bl:
+                    ak.delete_bond(*bl[len(bl) // 2])
+                str(ak), ak.atoms_order, ak.connected_components_count, ak.sssr
+                raise RuntimeError('reject')
+        except RuntimeError:
+            pass
+        ref = a.copy()
+        ref.kekule()
+        return (str(ak), sorted(ak.atoms_order.items()), tuple(ak.smiles_atoms_order), sorted(map(sorted, ak.connected_components)),
+                [str(x) for x in ak.split()]) == \
+               (str(ref), sorted(ref.atoms_order.items()), tuple(ref.smiles_atoms_order), sorted(map(sorted, ref.connected_components)),
+                [str(x) for x in ref.split()])
+    except Exception as e:
+        return 'EXC', type(e).__name__
+
+
 def in_reaction(spec, partner):
     """the molecule's own values after it served as a member of a reaction whose string / hash / CGR were computed first"""
     from vf import molgen
@@ -128,6 +156,11 @@ def main():
                     cached['rxn:member'] = copied['rxn:member'] = other['rxn:member'] = member
             except molgen.Reject:
                 first['rxn:member'] = None
+            ab = after_abort(spec)
+            first['txn:abort'] = True if not isinstance(ab, tuple) else ab
+            if ab is False:
+                bad.append('txn:abort')
+                cached['txn:abort'] = copied['txn:abort'] = other['txn:abort'] = False
             for op in MUTATORS:
                 cold, warm = mutated(spec, op, False), mutated(spec, op, True)
                 first['op:' + op] = cold
@@ -135,7 +168,7 @@ def main():
                     bad.append('op:' + op)
                     cached['op:' + op] = copied['op:' + op] = other['op:' + op] = warm
             out.write(json.dumps({'i': i, 's': first['str'] if isinstance(first['str'], str) else None,
-                                  'digest': {k: dg(first[k]) for k in KEYS + ['op:' + o for o in MUTATORS] + ['rxn:member']}, 'inconsistent': bad,
+                                  'digest': {k: dg(first[k]) for k in KEYS + ['op:' + o for o in MUTATORS] + ['rxn:member', 'txn:abort']}, 'inconsistent': bad,
                                   'detail': {k: [dg(first[k]), dg(cached[k]), dg(copied[k]), dg(other[k])] for k in bad},
                                   'ties': len(set(a.atoms_order.values())) < len(a), 'rings': a.rings_count}) + '\n')
 
